@@ -131,14 +131,15 @@ P = {
    text="Coq theorems over Col26.v/Ptg.v/FormulaEnv.v: bijective base-26 letters (injective, inverse) for every column, push_column = "
         "letters for all col < 2^32, push_cell_ref puts $ exactly on absolute components, A1 round trip through the hardened "
         "scanner; C14_rpn_correct_xls / _xlsb: for every well-formed formula AST (all reference kinds x 4 flag combinations, 3-D, "
-        "names, literals, unary/binary operators, parentheses, fixed- and variable-arity functions, AttrSum) outside the known "
-        "classes parse_formula (frame (encode e)) = Ok (render e), by stack-machine induction; the decoders' environment: "
+        "names, literals, unary/binary operators incl. the union / intersection / range operators behind PtgMemArea / PtgMemErr / "
+        "PtgMemNoMem / PtgMemFunc (xlsb: nested call, depth <= 64), #REF! forms, parentheses, fixed- and variable-arity functions, AttrSum) "
+        "parse_formula (frame (encode e)) = Ok (render e), by stack-machine induction; the decoders' environment: "
         "C14_name_index_stable(_xls), C14_defined_names_in_order(_xls) (every BrtName / Lbl record keeps its index and is reported "
         "in record order whatever its flags), C14_ptgname_is_ith_record_*, C14_sheet3d_through_xti_*; formula_positions and "
         "C14_stored_text_positions via from_sparse_spec. FTAB/FTAB_ARGC are regenerated from src/utils.rs on every run "
         "(tools/gen_tables.py) and proved equal to a frozen reference copy (regression pin). Totality: "
         "C14_no_panic_parse_formula_xls/_xlsb (every byte string), C14_no_panic_xlsb_read_names / _xls_read_names, C14_no_panic_a1. "
-        "C14_defined_name_text_is_render_xls (every Lbl formula that encodes a well-formed AST is reported as its rendering). C14_shared_formula_members_xls / C14_array_formula_members_xls and C14_sheet_formulas_xlsb / C14_shared_formula_members_xlsb / C14_array_formula_members_xlsb / C14_worksheet_formula_members_xlsb (FormulaSheet.v: every member of a shared / array group of an xls or xlsb sheet reports the group formula translated to its own position, PtgRefN / PtgAreaN offsets signed and wrapping as the format defines: 65536 x 256 for xls, 1048576 x 16384 for xlsb; xlsb: model of next_formula with its one-record look-ahead; xls: the sheet substream BOF, items, EOF, rest, whose items include NESTED substreams (embedded chart: any records incl. FORMULA / SHRFMLA / ARRAY at cells of the sheet's groups, BOF-EOF balanced) anywhere between the formula records: they contribute nothing and disturb nothing), C14_builtin_names_table (_xlnm.* names), C14_choose_correct_*, C14_user_function_correct_*, C14_sheet_name_quoting. No known class is left (K_PTGEXP repaired in both binary readers). Tie: hooks "
+        "C14_defined_name_text_is_render_xls (every Lbl formula that encodes a well-formed AST is reported as its rendering). C14_shared_formula_members_xls / C14_array_formula_members_xls and C14_sheet_formulas_xlsb / C14_shared_formula_members_xlsb / C14_array_formula_members_xlsb / C14_worksheet_formula_members_xlsb (FormulaSheet.v: every member of a shared / array group of an xls or xlsb sheet reports the group formula translated to its own position, PtgRefN / PtgAreaN offsets signed and wrapping as the format defines: 65536 x 256 for xls, 1048576 x 16384 for xlsb; xlsb: model of next_formula with its one-record look-ahead), (xls sheet items include NESTED substreams — embedded chart: any records, BOF-EOF balanced — which contribute nothing), C14_builtin_names_table (_xlnm.* names), C14_choose_correct_*, C14_user_function_correct_*, C14_sheet_name_quoting, C14_sheet_span_quoting / C14_resolve_xti_span_text / C14_sheet3d_through_xti_* (an XTI with itabFirst <> itabLast reads First:Last, quoted as one), C14_defined_name_text_is_render_xlsb (names decoded against the WHOLE name table: forward references), xls Lbl records with extra data behind the tokens and XTI arrays of any length split anywhere over ExternSheet + CONTINUE records (C14_defined_names_in_order_xls over flat_map enc_grec). Supporting links (iSupBook): Ptg.sheet_through_link says what an XTI means through the SupBook / BrtSup* records (sheets of this workbook exactly when the link is SupSelf / SupSame); known finding K_EXTERN_BOOK (the readers never look at the link: class Ptg.known_C14, refuted by C14_refuted_extern_xls / _xlsb); outside the class the full spec is proved: C14_rpn_correct_links_xls / _xlsb, C14_defined_name_text_through_links_xls / _xlsb, C14_xlsb_read_names_links_spec (any number of BrtSup* records in any order in front of BrtExternSheet). Tie: hooks "
         "push_column / both parse_formula / A1 helpers (exhaustive column sweep, random ASTs, malformed rgce with outcome "
         "prediction) and generated .xlsb, .xls, .xlsx and .ods files through worksheet_formula on every sheet and defined_names.",
    note=TB + " f64 display is a Section variable; <> OutOfFuel for the two decoders on arbitrary input is not proved. Table translator: tools/gen_tables.py (fail-closed regex extraction).",
@@ -310,10 +311,11 @@ P = {
         "visibility, kind; ordered defined names; date flag) and every legal encoding (attribute order, any prefixes, ignorable "
         "elements / junk records anywhere, relationship ids in any order, target spellings, 8- or 16-bit name storage, 1-2-byte record "
         "types with 1-4-byte lengths) the parsed record equals the logical workbook; projections C16_sheets_in_order_*, "
-        "C16_defined_names_in_order_* (xlsb names rendered through C14's rpn_correct_xlsb; xls names through parse_defined_names with "
-        "$ exactly on absolute components and XTI resolution; ods: EVERY name of the document in document order — the sheet-scoped names stored "
-        "in a table:named-expressions element anywhere among the children of their table:table, then the global ones (fix ODS-2; "
-        "Meta.ods_workbook / ow_all_names)), C16_rels_roundtrip_*, C16_tables_injective, and "
+        "C16_defined_names_in_order_* (names are expressions of C14's grammar in both binary formats — mem-prefixed unions, #REF! forms, names "
+        "stored before or after — rendered through C14's rpn_correct_*; xlsb: decoded against the whole name table; the EXTERNALS block with any "
+        "number of BrtSupBookSrc / BrtSupSelf / BrtSupSame / BrtSupAddin records in any order, legal XTIs point through a link to this workbook "
+        "(Ptg.xti_local) at a sheet or a span of sheets; xls: Lbl records with rgcb behind the rgce, XTI arrays of any length cut anywhere over "
+        "ExternSheet + CONTINUE records, spans of sheets; ods: EVERY name of the document in document order — the sheet-scoped names stored in a table:named-expressions element anywhere among the children of their table:table, then the global ones (fix ODS-2; Meta.ods_workbook / ow_all_names)), C16_rels_roundtrip_*, C16_tables_injective, and "
         "C16_date_flag_reaches_cells_{xlsx,xls,xlsb} composed with C10's date_iff_style theorems. No known class left (four repaired "
         "in /repo). Totality: C16_no_panic_xlsx_open, C16_no_panic_ods_parse_content. Tie: generated workbooks of the four formats "
         "through sheet_names, sheets_metadata, defined_names, worksheet_range, plus perturbed event lists / byte streams. "
@@ -437,7 +439,7 @@ STALE = set()
 STALE_REASON = ("temporarily not claimed: a shared model file this slice imports (Col26.v / Range.v) was just re-synchronised with the "
                 "hardened code and the slice's bridge lemmas are being re-proved against it; until that is merged the slice's proof "
                 "files do not all compile")
-HOOK_COMMITS = ["6e4993e", "bb5031b", "a67f951", "bdf3a94", "d6d3370", "13b2ff0", "132a2f1", "e246db2"]
+HOOK_COMMITS = ["6e4993e", "bb5031b", "a67f951", "bdf3a94", "d6d3370", "13b2ff0", "132a2f1", "e246db2", "4161e7a"]
 if __name__ == "__main__":
     main()
     # the source baseline (tools/source_baseline.json) belongs to the same /repo HEAD as the manifest
